@@ -14,7 +14,7 @@
    regions); compared with the implementation and decided by the oracle of
    harness/props/c19.py on every case of the parser stream. *)
 From Coq Require Import String.
-From YV Require Import PyBase Token PState Parser Expand Exec ExpandSites ExecPlain ExecUnk Catalogue.
+From YV Require Import PyBase Token PState Parser Expand Exec ExpandSites ExecPlain ExecUnk ExecArgs Catalogue.
 Open Scope Z_scope.
 
 Theorem C19_add_once_in_order : forall l name,
@@ -46,15 +46,15 @@ Print Assumptions C19_declared_macro_not_listed.
    names added in order (add_unknown adds a name once), declarations
    untouched, and the text of the words in the output *)
 Theorem C19_plain_text_with_unknown_macros : forall rd fuel toks st st' out,
-  Forall (ucls py_tables (macros st)) toks ->
+  bcl py_tables (macros st) toks ->
   exec py_tables rd fuel (TSeq toks None []) st = Ok (st', ASeq out []) ->
-  nst py_tables out = nst py_tables (plains toks) /\
-  unknowns st' = fold_left add_unknown (names toks) (unknowns st) /\
+  ExecUnk.nst py_tables out = ExecUnk.nst py_tables (plains toks) /\
+  unknowns st' = fold_left add_unknown (unames (macros st) toks) (unknowns st) /\
   macros st' = macros st.
 Proof.
   exact (fun rd fuel toks st st' out =>
-           exec_unknowns_text py_tables rd (eq_refl true) (fun c => eq_refl) fuel toks st st' out
-                              (eq_refl true)).
+           exec_args_text py_tables rd (eq_refl true) (fun c => eq_refl) fuel toks st st' out
+                          (eq_refl true)).
 Qed.
 Print Assumptions C19_plain_text_with_unknown_macros.
 
